@@ -168,6 +168,17 @@ def run_config(cfg):
                         rep.case(explorer.digest([cfg, j, "second", m]), nontrivial=True)
                         compare(r2, R, rep, "C11/resumed-twice-differs/bytes",
                                 dict(case, second_fault_at=m))
+        # the process may also die after the last checkpoint was written (or a finished run is invoked again): resuming from
+        # the final checkpoint reproduces the finished run
+        if ck:
+            for route in ("bytes", "dict"):
+                casef = {"cfg": cfg, "checkpoint_index": len(ck) - 1, "iteration": ck[-1][0], "route": route, "crash_points": ["after-the-last-checkpoint"]}
+                rf = rh.run(cfg, resume_from=ck[-1][1] if route == "bytes" else pickle.loads(ck[-1][1]))
+                rep.case(explorer.digest([cfg, "final", route]), nontrivial=cfg.get("n_final") is not None)
+                if rf.exception is not None:
+                    rep.violation(f"C11/resume-raises/{route}/from-the-final-checkpoint/{rf.exception[0]}", rf.exception, casef)
+                else:
+                    compare(rf, R, rep, f"C11/resumed-run-differs/{route}/from-the-final-checkpoint", casef)
         rep.sample({"cfg": cfg, "calls": K, "checkpoints": [i for i, _ in ck], "iterations": iters})
     finally:
         shutil.rmtree(tmpdir, ignore_errors=True)
